@@ -98,8 +98,69 @@ pub fn describe(n: &Node) -> String {
     }
 }
 
+/// the same key written more than once inside one transaction (found missing by seed C02b): a
+/// contract updates a committed value optimistically, its sub-message fails and is caught, and the reply
+/// handler restores the old value; and two completed sibling sub-messages set a committed flag and
+/// reset it.  What later steps and the committed state see must be the last write.
+fn rewrite_same_key() {
+    use crate::sc::{QueryMsg, Script, Step};
+    use cosmwasm_std::{BankMsg, Binary, ReplyOn, WasmMsg};
+    let mut w = world(2);
+    let (k0, k1, user, sink) = (w.ks[0].clone(), w.ks[1].clone(), w.user.clone(), w.sink.clone());
+    w.app.execute_contract(user.clone(), k0.clone(), &Script::new().write("lvl", "5"), &[]).unwrap();
+    w.app.execute_contract(user.clone(), k1.clone(), &Script::new().write("flag", "0"), &[]).unwrap();
+    let amt = sym_u128("amt", 0, BAL);
+    let variant = choose(3);
+    let script = match variant {
+        // optimistic update, restore in the reply to a (solver-chosen) failing transfer
+        0 => Script::new().write("lvl", "6").sub(
+            BankMsg::Send { to_address: sink.to_string(), amount: vec![coin(amt, "x")] },
+            ReplyOn::Always,
+            1,
+            Some(Script::new().write("lvl", "5").then(Step::ReadOwn { tag: "seen".into(), key: "lvl".into() })),
+        ),
+        // two completed siblings: set, then reset to the committed value; a third step observes
+        1 => Script::new()
+            .sub(WasmMsg::Execute { contract_addr: k1.to_string(), msg: Script::new().write("flag", "1").bin(), funds: vec![] }, ReplyOn::Never, 1, None)
+            .sub(
+                WasmMsg::Execute { contract_addr: k1.to_string(), msg: Script::new().write("flag", "0").bin(), funds: vec![] },
+                ReplyOn::Success,
+                2,
+                Some(Script::new().then(Step::QueryRaw { tag: "seen".into(), addr: k1.to_string(), key: Binary::from(b"flag".to_vec()) })),
+            ),
+        // write, write back the committed value in the same contract body
+        _ => Script::new().write("lvl", "9").write("lvl", "5").then(Step::ReadOwn { tag: "seen".into(), key: "lvl".into() }),
+    };
+    sc::trace_clear();
+    let r = catch(|| w.app.execute_contract(user.clone(), k0.clone(), &script, &[]));
+    match r {
+        Err(p) => {
+            failure("no_panic", "panic", p);
+            return;
+        }
+        Ok(Err(e)) => {
+            check_native("transaction_succeeds", false, || format!("{:#}", e));
+            return;
+        }
+        Ok(Ok(_)) => {}
+    }
+    witness("rewrite_ok");
+    let trace = sc::trace_take();
+    let seen = trace.iter().flat_map(|e| e.obs.iter()).find_map(|(t, o)| match (t.as_str(), o) {
+        ("seen", crate::sc::Obs::Bytes(b)) => Some(b.clone()),
+        _ => None,
+    });
+    let (want, got): (&[u8], Option<Vec<u8>>) = match variant {
+        1 => (b"0", w.app.wrap().query_wasm_raw(k1.to_string(), b"flag".to_vec()).unwrap()),
+        _ => (b"5", w.app.wrap().query_wasm_raw(k0.to_string(), b"lvl".to_vec()).unwrap()),
+    };
+    check_native("later_steps_see_the_last_write", seen == Some(Some(want.to_vec())), || format!("variant {} saw {:?}", variant, seen));
+    check_native("committed_state_is_the_last_write", got.as_deref() == Some(want), || format!("variant {} committed {:?}", variant, got));
+}
+
 pub fn scenarios(tier: &str) -> Vec<Scenario> {
     let mut v = vec![];
+    v.push(Scenario::new("same_key_rewritten_inside_one_transaction", &["rewrite_ok"], rewrite_same_key));
     v.push(Scenario::new("trees_depth2_nodes3", &["tree_ok", "tree_err", "some_failure_caught"], || {
         run_tree(&Opts { max_depth: 2, max_nodes: 3, max_children: 2, vary_output: false, vary_ids: false })
     }));
